@@ -130,7 +130,11 @@ func runC13(c *Ctx) {
 	// R13.7 duplicate removal treats the range of a match as half open: Offset is compared strictly with Offset+Extent
 	if uq := p.Func(scPkg, "(Matches).uniquify"); c.R.Anchor(uq != nil, "stringclassifier.(Matches).uniquify") {
 		n7 := 0
-		for _, b := range uq.Blocks {
+		var uqBlocks []*ssa.BasicBlock
+		for _, f := range pkgClosure(uq, scPkg) {
+			uqBlocks = append(uqBlocks, f.Blocks...)
+		}
+		for _, b := range uqBlocks {
 			for _, in := range b.Instrs {
 				bo, ok := in.(*ssa.BinOp)
 				if !ok {
@@ -142,7 +146,7 @@ func runC13(c *Ctx) {
 					sum, other, mirrored = bo.X, bo.Y, true
 				}
 				add, isAdd := sum.(*ssa.BinOp)
-				if !isAdd || add.Op != token.ADD || !strings.HasSuffix(core.AP(other), ".Offset") {
+				if !isAdd || add.Op != token.ADD || other == nil {
 					continue
 				}
 				// the sum of two fields of one element (start + length of an accepted range)
